@@ -189,8 +189,10 @@ func genComposite(r *Rng, o SpecOpts, depth int) *impl.TField {
 		}
 		keys = perm[:n]
 		f.Tag = &impl.TTag{Sort: Pick(r, []string{"StringsByInt", "StringsByHex"}), Pad: nil}
-		switch r.Intn(4) {
+		switch r.Intn(5) {
 		case 0: // positional
+		case 4: // tag encoder with tag length 0
+			f.Tag.Enc = Pick(r, VocabEncs)[0]
 		case 1:
 			f.Tag.Length = len(keys[0])
 			f.Tag.Enc = Pick(r, VocabEncs)[0]
@@ -211,6 +213,10 @@ func genComposite(r *Rng, o SpecOpts, depth int) *impl.TField {
 			if !uniform || r.Intn(3) == 0 {
 				f.Tag.Length = 4
 				f.Tag.Pad = &impl.TPad{Type: "leftPadder", Pad: Pick(r, []string{"0", " "})}
+			} else if r.Intn(5) == 0 {
+				// a tag encoder without a tag length (as BER-TLV specs have): Pack still writes the
+				// tags, so dropping the encoder on export changes the packed bytes
+				f.Tag.Length = 0
 			}
 		}
 	}
